@@ -685,6 +685,13 @@ class ComplexModelMeta(with_metaclass(Prepareable, type(ModelBase))):
             if self.Attributes._subclasses is eattr._subclasses:
                 self.Attributes._subclasses = None
 
+        # the registry of customized variants belongs to one class: a subclass
+        # must not find (and feed) the one of its parent through the
+        # Attributes class hierarchy.
+        if self.__orig__ is None and \
+                                   '_variants' not in vars(self.Attributes):
+            self.Attributes._variants = None
+
         # sanitize fields
         for k, v in type_info.items():
             # replace bare SelfRerefence
